@@ -162,12 +162,20 @@ pub fn run(run: &mut Run) {
                         if layout == 0 && !full_parens && !crlf && !brk {
                             continue;
                         }
-                        let opts = PrintOpts { full_parens, explicit_ret: false, loop_true: false, layout: layout * 7 + bi as u32 % 5 * (layout.min(1)), crlf, break_brackets: brk };
+                        let opts = PrintOpts { full_parens, explicit_ret: false, loop_true: false, layout: layout * 7 + bi as u32 % 5 * (layout.min(1)), crlf, break_brackets: brk, break_infix: false };
                         let text = print_with(&base, opts).text;
                         judge(acc, "layout", format!("layout={} parens={} crlf={} break_brackets={}", layout, full_parens, crlf, brk), text, false);
                     }
                 }
             }
+        }
+        {
+            let opts = PrintOpts { break_infix: true, ..PrintOpts::default() };
+            let text = print_with(&base, opts).text;
+            judge(acc, "layout", "break_infix".to_string(), text, false);
+            let opts = PrintOpts { break_infix: true, break_brackets: true, layout: 2, ..PrintOpts::default() };
+            let text = print_with(&base, opts).text;
+            judge(acc, "layout", "break_infix break_brackets noise".to_string(), text, false);
         }
         // sugar group: every style vector over the first k call sites x ret form x loop form
         let nsites = restyle(&mut base.clone(), &[]).min(ksites);
@@ -200,6 +208,14 @@ pub fn run(run: &mut Run) {
                 let opts = PrintOpts { break_brackets: true, layout: 3, full_parens: true, ..PrintOpts::default() };
                 let text = print_with(&v, opts).text;
                 judge(acc, "sugar+layout", format!("styles={:?} break_brackets noise parens", styles), text, true);
+                // continuation lines: inside brackets every binary operator and every `->` starts a new line, and a prime
+                // call in the last argument slot of a prime call stands without parentheses of its own
+                let opts = PrintOpts { break_infix: true, ..PrintOpts::default() };
+                let text = print_with(&v, opts).text;
+                judge(acc, "sugar+layout", format!("styles={:?} break_infix", styles), text, true);
+                let opts = PrintOpts { break_infix: true, break_brackets: true, ..PrintOpts::default() };
+                let text = print_with(&v, opts).text;
+                judge(acc, "sugar+layout", format!("styles={:?} break_infix break_brackets", styles), text, true);
             }
         }
         if bi % 97 == 0 {
@@ -208,7 +224,7 @@ pub fn run(run: &mut Run) {
         }
     });
     run.stats = Stats::merge_all(accs);
-    run.rule = "base programs: the statement families (short sequences), the recursion templates, expressions of size <= 1 in five call-heavy contexts and a feature-dense sample; per base every combination of 4 layout noise patterns (blank lines, comment lines, trailing comments, tab indentation) x redundant parentheses x CRLF x line breaks inside brackets, and every call-style vector over the first k call sites (f(a), f' a, a -> f(), a -> f') x trailing expression vs ret x loop do vs loop true do; non-trivial = the base compiles; distinct by base text".into();
+    run.rule = "base programs: the statement families (short sequences), the recursion templates, expressions of size <= 1 in five call-heavy contexts and a feature-dense sample; per base every combination of 4 layout noise patterns (blank lines, comment lines, trailing comments, tab indentation) x redundant parentheses x CRLF x line breaks inside brackets (after `(`, `[`, `,`; and continuation lines that start with a binary operator or `->`), and every call-style vector over the first k call sites (f(a), f' a, a -> f(), a -> f') x trailing expression vs ret x loop do vs loop true do; non-trivial = the base compiles; distinct by base text".into();
     run.bounds = json!({"bases": bases.len(), "call_sites_varied": ksites});
     run.assumptions = vec![
         "layout variants are compared byte for byte after masking the line number in `Reached unreachable code on line N`".into(),
